@@ -110,6 +110,33 @@ def gen(ctx):
         vars = [("x", from_json(json.loads(rng.choice(XS)))), ("s", from_json(json.loads(rng.choice(["\",\"", "\"\"", "\"a\"", "\"ab\"", "1", "null"])))),
                 ("d", I(rng.choice([0, 1, 2, 3]))), ("n", I(rng.choice([0, 1, 2]))), ("t", from_json(json.loads(rng.choice(["\"a\"", "\"\"", "\"abc\"", "\"c\"", "\"ab\"", "\"x\"", "\"1\""])))), ("p", from_json(json.loads(rng.choice(["[]", "[0]", "[\"a\"]", "[\"a\",\"b\"]", "[1,0]", "[\"d\",1,\"e\"]"]))))]
         cases.append(dict(filter=ST + "[st(%s), st(%s)]" % (lhs_, rhs_), inputs=[inp], vars=vars, kind=kind, eq=(lhs_, rhs_)))
+    # long arrays with ties (longer than any small-slice fast path of the sorts)
+    for _ in range(60 if tier == "quick" else 800):
+        k = rng.randint(21, 90)
+        arr = [rng.choice([0, 1, 2, 3, 4, 5, 6, 7, 8, 9, 10, 11]) + 12 * i for i in range(k)]
+        rng.shuffle(arr)
+        if rng.random() < 0.5:
+            arr = [{"a": x % 4, "b": x} for x in arr]
+            f = rng.choice([".a", ".a % 2", "(.a, 0)", "[.a]"])
+        else:
+            f = rng.choice([". % 3", ". % 2", "(. % 4 | tostring)", "0", ". % 5 == 0"])
+        for kind in ("sort_by-stable", "group_by", "unique_by", "min_by", "max_by"):
+            _, lhs, rhs = [e for e in EQS if e[0] == kind][0]
+            lhs_, rhs_ = lhs.replace("F", f), rhs.replace("F", f)
+            cases.append(dict(filter=ST + "[st(%s), st(%s)]" % (lhs_, rhs_), inputs=[from_json(arr)], vars=[], kind=kind, eq=(lhs_, rhs_)))
+    # searching in text strings, byte strings and arrays: overlapping and multi-byte occurrences
+    hay = ["aaaa", "ababab", "abcabc", "", "a", "\u00e9\u00e9\u00e9", "x\u00e9x\u00e9", "aXaXa", "aaa\u20acaa"]
+    needles = ["aa", "abab", "a", "", "abc", "\u00e9", "\u00e9\u00e9", "aXa", "b", "x\u00e9"]
+    for h in hay:
+        for nd in needles:
+            hv, nv = json.loads('"%s"' % h), json.loads('"%s"' % nd)
+            for mk, kind in ((S, "text"), (Y, "bytes")):
+                cases.append(dict(filter="[indices($x), index($x), rindex($x), ([indices($x)[] as $i | .[$i:][:$x | length] == $x] | all), "
+                                         "(if ($x | length) > 0 then [range(length) as $i | select(.[$i:][:$x | length] == $x) | $i] == indices($x) else true end), "
+                                         "contains($x), startswith($x), endswith($x), ltrimstr($x), rtrimstr($x), inside($x), (. as $h | $x | inside($h))]",
+                                  inputs=[mk(hv.encode())], vars=[("x", mk(nv.encode()))], kind="search-" + kind, py=(hv, nv, kind)))
+    for arr, nd in [([1, 1, 1, 1], [1, 1]), ([1, 2, 1, 2, 1, 2], [1, 2, 1, 2]), ([1, 2, 1], 1), ([[1], [1]], [[1]]), ([], []), ([1], [])]:
+        cases.append(dict(filter="[indices($x), index($x), rindex($x)]", inputs=[from_json(arr)], vars=[("x", from_json(nd))], kind="search-arr", py=(arr, nd, "arr")))
     # Python references
     for _ in range(200 if tier == "quick" else 3000):
         k = rng.randint(0, 9)
@@ -143,6 +170,30 @@ def oracle(c, impl, model=None):
     if not (isinstance(impl, list) and impl and impl[0] == "out" and impl[2] == "end" and len(impl[1]) == 1):
         return None
     out = impl[1][0]
+    if c["kind"].startswith("search-"):
+        h, nd, kind = c["py"]
+        got = out[1:]
+        if kind == "arr":
+            if isinstance(nd, list):
+                want = [i for i in range(len(h) - len(nd) + 1) if h[i:i + len(nd)] == nd] if nd else []
+            else:
+                want = [i for i, x in enumerate(h) if x == nd]
+        elif kind == "text":
+            want = [i for i in range(len(h) - len(nd) + 1) if h[i:i + len(nd)] == nd] if nd else []
+        else:
+            hb, nb = h.encode(), nd.encode()
+            want = [i for i in range(len(hb) - len(nb) + 1) if hb[i:i + len(nb)] == nb] if nb else []
+        if got[0] != from_json(want):
+            return ("indices-" + kind, "indices(%r) in %r (%s): got %s, all positions are %s" % (nd, h, kind, sx.dumps(got[0]), want))
+        if got[1] != from_json(want[0] if want else None) or got[2] != from_json(want[-1] if want else None):
+            return ("index-rindex-" + kind, "index/rindex(%r) in %r (%s): %s %s" % (nd, h, kind, sx.dumps(got[1]), sx.dumps(got[2])))
+        if kind != "arr":
+            if got[3] != "true" or got[4] != "true":
+                return ("indices-verify-" + kind, "indices($x) does not list exactly the positions i with .[i:][:$x|length] == $x: %s" % sx.dumps(out))
+            hb, nb = h.encode(), nd.encode()
+            if got[5] != from_json(nb in hb) or got[6] != from_json(hb.startswith(nb)) or got[7] != from_json(hb.endswith(nb)):
+                return ("contains-starts-ends-" + kind, "contains/startswith/endswith(%r) on %r: %s" % (nd, h, sx.dumps(out)))
+        return None
     if c["kind"] == "pyref":
         arr = c["py"]
         srt = sorted(arr, key=py_key)    # Python's sort is stable
